@@ -98,7 +98,11 @@ def eval_expression(expr: str, context: dict) -> Any:
 
                     value = str(value)
 
-                    # Escape special characters
+                    # The value becomes part of a string literal of the expression: a
+                    # backslash or a quote of the value must stay that character
+                    value = value.replace("\\", "\\\\")
+                    value = value.replace('"', '\\"').replace("'", "\\'")
+                    # Escape the other special characters
                     value = escape_special_string_characters(value)
 
                     # Curly brackets in the value are text: we double them so that the
